@@ -12,7 +12,7 @@ def handleSign (op : String) (a : Json) : Option Json :=
     let keyAt (j : Json) : Key := keys.getD (getInt j "key").toNat Key.zero
     match loadMetadata (L (getStr a "text")) with
     | .ok md =>
-      let ops : List SOp := (getArr a "ops").map fun o =>
+      let toOp (o : Json) : SOp :=
         match getStr o "op" with
         | "sign" => .sign (keyAt o)
         | "extsign" => .extsign (keyAt o)
@@ -23,7 +23,11 @@ def handleSign (op : String) (a : Json) : Option Json :=
         | "dumpload" => .dumpload
         | "setname" => .setName (L (getStr o "s"))
         | _ => .corrupt (getInt o "i").toNat
-      let r := run W0 { md := md, valid := [], n := 0 } ops
+      -- the history is folded op by op (`Sign.run` is this fold over `sstep`); "setfrac" is the one
+      -- operation outside `SOp`: `Sign.trySetFrac`
+      let r : SState × List String := (getArr a "ops").foldl (fun (acc : SState × List String) o =>
+        let step := if getStr o "op" == "setfrac" then trySetFrac acc.1 else sstep W0 acc.1 (toOp o)
+        (step.1, acc.2 ++ [step.2])) ({ md := md, valid := [], n := 0 }, [])
       let pubOf (kid : Str) : Str := match keys.find? fun k => k.keyid = kid with | some k => k.pub | none => []
       some (Json.mkObj [
         ("results", Json.arr (r.2.map Json.str).toArray),
